@@ -6,9 +6,8 @@ polynomial dyadic equations) compiled by the real PyRates with vectorize=True an
 random dyadic states (and Euler trajectories through CircuitTemplate.run for a subset) is compared, as exact rationals
 and inside Coq, with Impl (must agree everywhere, Err classes included) and with Spec (must agree under the guards).
 A fraction of the edges is written WITHOUT a 'weight' entry (default 1; D46).  Kind `perm`: >= 10 one-to-one edges covering
-a whole vector in permuted order (identity test of _get_indexed_var_str).  Stream `multiop` (NOT model-tied: node types
-with several operators, structurally identical ones under different names included; real vec vs real non-vec vs a python
-unit-level sum, no Coq Impl).  Kind `ring`: 14-24 units, sparse with FAN-IN, fill on both sides of 0.1.  Kind `seq`: ONE
+a whole vector in permuted order (identity test of _get_indexed_var_str).  Stream `multiop` (node types with several operators, structurally identical ones under different names and rename chains
+included): real vec vs real non-vec vs Vectorize.mimpl / mspec inside Coq (model-tied), plus a python unit-level sum.  Kind `ring`: 14-24 units, sparse with FAN-IN, fill on both sides of 0.1.  Kind `seq`: ONE
 template object compiled 2-3 times (vec -> non-vec, non-vec -> vec, in_place True/False, clear=True): every step must be the
 unit-level sum; the last step of each mode also goes through the Coq comparison."""
 import json, os, re
@@ -658,6 +657,55 @@ def coq_tcase(case, r):
     return (f"({coq_circuit(case)}, {coq_row(case['states'][0])}, {cq(case['traj']['h'])}, {cnat(case['traj']['steps'])}, "
             f"{coq_tobs(r['tvec'])}, {coq_tobs(r['tnon'])})")
 
+# ---- multi-operator node types: Vectorize.mimpl / mspec
+S_POLY = [[["1", 0, 1, 1], ["-1", 1, 0, 0]], [["1", 0, 1, 1], ["-2", 2, 0, 0]], [["1", 0, 0, 1], ["-1", 1, 1, 0]]]
+M_POLY = [[["1", 0, 1, 1], ["-1", 1, 0, 0]], [["1", 1, 1, 1], ["-1", 1, 0, 0], ["1/2", 0, 0, 0]]]
+
+def coq_mcircuit(case):
+    """a class = its S operators (in slot order) followed by the M operator, which is fed by all of them; operator names:
+    s<form>j<slot> -> 10*form + slot, m<form> -> 100 + form (names are not part of the structure)"""
+    cls = []
+    for ty in case["types"]:
+        ops = [f"Opr {coq_poly(S_POLY[f], 3)} None {cq(0)} []" for f, _ in ty["s"]]
+        ops.append(f"Opr {coq_poly(M_POLY[ty['m']], 3)} None {cq(0)} {clist([cnat(i) for i in range(len(ty['s']))])}")
+        cls.append(clist(ops))
+    nodes = []
+    for nd in case["nodes"]:
+        ty = case["types"][nd["type"]]
+        names = [cnat(10 * f + sl) for f, sl in ty["s"]] + [cnat(100 + ty["m"])]
+        nodes.append(f"MNode {nd['type']} {clist(names)} {clist([cq(k) for k in nd['k']] + [cq(nd['c'])])}")
+    edges = []
+    for s_, t, j, w in case["edges"]:
+        ns = len(case["types"][case["nodes"][s_]["type"]]["s"])
+        edges.append(f"MEdge {s_} {ns} false {t} {j} {copt(w, cq)}")
+    return f"(MCirc {clist(cls)} {clist(nodes)} {clist(edges)})"
+
+MO_HEADER = """
+Definition mcase := (mcircuit * list (list Qc) * obs * obs)%type.
+Definition mokI (p : mcase) := let '(c, sts, ov, on) := p in
+  all2 (fun st o => oq_eqb (Some (mimpl true c st)) o) sts ov && all2 (fun st o => oq_eqb (Some (mimpl false c st)) o) sts on.
+Definition mokS (p : mcase) := let '(c, sts, ov, on) := p in
+  all2 (fun st o => oq_eqb (Some (mspec c st)) o) sts ov && all2 (fun st o => oq_eqb (Some (mspec c st)) o) sts on.
+Definition mcof (p : mcase) : mcircuit := fst (fst (fst p)).
+"""
+
+def model_compare_mo(ctx, cases, outs, tag):
+    """multi-operator circuits against Vectorize.mimpl / mspec -> badI, badS, ill-formed (indices into cases)"""
+    badI, badS, wff = [], [], []
+    shard = 40
+    for s in range(0, len(cases), shard):
+        terms = []
+        for c, o in zip(cases[s:s + shard], outs[s:s + shard]):
+            n = len(c["states"])
+            terms.append(f"({coq_mcircuit(c)}, {clist([coq_row(x) for x in c['states']])}, {coq_obs(o['vec'], n)}, {coq_obs(o['non'], n)})")
+        body = ("Definition mcases : list mcase := " + clist(terms) + ".\n"
+                "Eval vm_compute in (mismatches mokI mcases).\nEval vm_compute in (mismatches mokS mcases).\n"
+                "Eval vm_compute in (mismatches (fun p => mwf (mcof p)) mcases).\n")
+        ls = parse_nat_lists(coq_eval(ctx, f"c04_mo_{tag}_{s}", header() + MO_HEADER, body))
+        assert len(ls) == 3, ls
+        badI += [s + i for i in ls[0]]; badS += [s + i for i in ls[1]]; wff += [s + i for i in ls[2]]
+    return badI, badS, wff
+
 def model_compare(ctx, cases, outs, tag):
     """-> badI, badS (indices into cases), guard_viol {index: [guard names]}, wf_false [indices]"""
     badI, badS, gv, wff = set(), set(), {}, []
@@ -793,6 +841,10 @@ def check(ctx):
         if i not in badS:
             badS.append(i)
     mo_bad = [i for i in moi if mo_disagrees(cases[i], outs[i])]     # multi-operator node types: real vec vs real non-vec vs python sum
+    mbI, mbS, mwff = model_compare_mo(ctx, [cases[i] for i in moi], [outs[i] for i in moi], "main")   # ... and vs Vectorize.mimpl / mspec
+    assert not mwff, f"generator produced ill-formed multi-operator circuits: {[moi[i] for i in mwff][:5]}"
+    badI += [moi[i] for i in mbI]
+    mo_bad = sorted(set(mo_bad) | {moi[i] for i in mbS})
     badS += mo_bad
     for i in rawi:                                 # unmodelled family (D23): vec vs non-vec only
         if raw_differs(outs[i]):
@@ -859,12 +911,12 @@ def check(ctx):
                         ">= 10 one-to-one edges covering a whole vector in permuted order (ends fixed / last fixed / identity / arbitrary; sorted source indices "
                         "with repeats); rings / random sparse graphs of 14-24 units with fan-in and fill E/(targets x sources) on both sides of 0.1; "
                         "sequences of 2-3 compilations of ONE template object (vec->non-vec, non-vec->vec, in_place True/False, clear=True); "
-                        "multiop stream (not model-tied): node types of 1-3 S operators + 1 M operator, structurally identical operators under "
-                        "different names, types differing only in operator multiplicity, compared vec vs non-vec vs python sum; each compiled with vectorize=True and False (default backend, float64), vector field at "
+                        "multiop stream (model-tied: Vectorize.mimpl / mspec): node types of 1-3 S operators + 1 M operator, structurally identical operators under "
+                        "different names, types differing only in operator multiplicity, compared vec vs non-vec vs the multi-operator model (and a python sum); each compiled with vectorize=True and False (default backend, float64), vector field at "
                         "2 random dyadic states (+ Euler trajectories through run() for the linear subset); a circuit is non-trivial when some class has >= 2 "
                         "nodes and receives >= 1 edge; distinct = distinct canonical JSON",
                    samples=[sample], extra=dict(input_distribution=hist, impl_vs_model_mismatches=len(badI), impl_vs_spec_mismatches=len(badS),
-                                                guards=GUARDS, unmodelled=["multi-operator node types: compared on the real code only (vec vs non-vec vs python unit-level sum)",
+                                                guards=GUARDS, unmodelled=[
                                                             RAW_GUARD + " (D23: algebraic source variable that depends on its own input; "
                                                                            "raw witness compared vec vs non-vec only)"]),
                    trusted_base=["numpy float64 arithmetic is exact on the generated dyadic data (results are compared as exact rationals, no tolerance)",
